@@ -124,3 +124,22 @@ pub fn e5_bad_cursor_base<D: DiffHook>(d: &mut D, old_range: Range<usize>, new_r
     }
     d.finish()
 }
+
+/// control E6: the insert reuses a position computed before the delete consumed old items
+pub fn e6_bad_stale_position<D: DiffHook>(d: &mut D, old_range: Range<usize>, new_range: Range<usize>, n: usize) -> Result<(), D::Error> {
+    let mut old_idx = 0;
+    let mut new_idx = 0;
+    while old_idx < n {
+        old_idx += 1;
+        new_idx += 1;
+    }
+    let old_rest = old_range.start + old_idx;
+    let new_rest = new_range.start + new_idx;
+    if old_idx < old_range.len() {
+        d.delete(old_rest, old_range.len() - old_idx, new_rest)?;
+    }
+    if new_idx < new_range.len() {
+        d.insert(old_rest, new_rest, new_range.len() - new_idx)?;
+    }
+    d.finish()
+}
